@@ -7,6 +7,7 @@ import (
 	"io"
 
 	"github.com/ohler55/slip"
+	"github.com/ohler55/slip/pkg/cl"
 )
 
 func init() {
@@ -75,10 +76,14 @@ func (f *WithZipReader) Call(s *slip.Scope, args slip.List, depth int) (result s
 	}
 	s2 := s.NewScope()
 	s2.Let(sym, slip.NewInputStream(z))
+	defer func() { _ = z.Close() }()
 	for i := range forms {
 		result = slip.EvalArg(s2, forms, i, d2)
+		switch result.(type) {
+		case *slip.ReturnResult, *cl.GoTo:
+			return // pass a return-from, return or go on to its target
+		}
 	}
-	_ = z.Close()
 
 	return
 }
